@@ -159,7 +159,12 @@ func classifyWritten(prog *core.Program, v ssa.Value, at ssa.Instruction, depth 
 func floatGuarded(call *ssa.Call, at ssa.Instruction) bool {
 	operand := call.Common().Args[0]
 	nan, inf := false, false
-	for b := call.Block(); b != nil; b = b.Idom() {
+	// what must be guarded is the write of the text as a number, not the formatting call (which may be hoisted)
+	var target ssa.Instruction = call
+	if at != nil {
+		target = at
+	}
+	for b := target.Block(); b != nil; b = b.Idom() {
 		id := b.Idom()
 		if id == nil {
 			break
@@ -206,7 +211,7 @@ func floatGuarded(call *ssa.Call, at ssa.Instruction) bool {
 			}
 			return true
 		}}
-		if !w.ReachFromEntry(fn)[call] {
+		if !w.ReachFromEntry(fn)[target] {
 			seen[calleeName(t)] = true
 		}
 	}
